@@ -88,7 +88,7 @@ class _StubDB:
         return [f for f in self.feats if f.featuretype in fts]
 
 
-@bounded("C17.reference_id_parsing", ["C17"], note="ids formatted exactly as the model constructor formats them "
+@bounded("C17.reference_id_parsing", ["C17"], shards=4, note="ids formatted exactly as the model constructor formats them "
          "(transcript<n>.<chr>.nic/.nnic, novel_gene_<chr>_<n>), for chromosome names with dots/underscores/digits, are fed "
          "back as a reference through a stub gene database: every such n must end up forbidden, and increment() must never "
          "return one of them; bound: n in 0..60, 8 chromosome-name shapes, plus foreign ids")
